@@ -30,6 +30,11 @@ def topo(name):
         elif name == 'square': _T[name] = mesh.rectilinear([numpy.array([0., 2., 4.]), numpy.array([0., .5, 1.])])
         elif name == 'squaren': _T[name] = mesh.rectilinear([numpy.array([0., 1., 3.]), numpy.array([0., 2., 3.])])
         elif name == 'tri': _T[name] = mesh.unitsquare(2, 'triangle')
+        # a single element in a periodic direction is its own neighbour
+        elif name == 'line1p': _T[name] = mesh.rectilinear([numpy.array([0., 2.])], periodic=(0,))
+        elif name == 'sq13p': _T[name] = mesh.rectilinear([numpy.array([0., 2.]), numpy.array([0., 1., 2., 3.])], periodic=(0,))
+        elif name == 'sq31p': _T[name] = mesh.rectilinear([numpy.array([0., 1., 2., 3.]), numpy.array([0., .5])], periodic=(1,))
+        elif name == 'sq22pp': _T[name] = mesh.rectilinear([numpy.array([0., 1., 2.]), numpy.array([0., 1., 2.])], periodic=(0, 1))
         elif name == 'hier':
             t, g = mesh.rectilinear([numpy.array([0., 1., 2.]), numpy.array([0., 1., 2.])]); _T[name] = (t.refined_by([0]), g)
         elif name == 'hier1':
@@ -58,6 +63,17 @@ def configs(tier):
     C.append(('tri-discont1', 'tri', dict(btype='discont', degree=1), True, -1))
     C.append(('h-std1', 'hier', dict(btype='h-std', degree=1), False, 0)); C.append(('th-std1', 'hier', dict(btype='th-std', degree=1), True, 0))
     C.append(('h-spline2-1d', 'hier1', dict(btype='h-spline', degree=2), False, 1)); C.append(('th-spline2-1d', 'hier1', dict(btype='th-spline', degree=2), True, 1))
+    # lagrange / bernstein bases are built by the generic dof-merging route (not the structured one), also across periodic self-interfaces
+    for bt in ('lagrange', 'bernstein'):
+        for d in (1, 2):
+            C.append((f'{bt}{d}', 'line3', dict(btype=bt, degree=d), True, 0)); C.append((f'{bt}{d}-periodic', 'line3p', dict(btype=bt, degree=d), True, 0))
+            C.append((f'{bt}{d}-1elem-periodic', 'line1p', dict(btype=bt, degree=d), True, 0)); C.append((f'{bt}{d}-1x3-periodic', 'sq13p', dict(btype=bt, degree=d), True, 0))
+        C.append((f'{bt}2-3x1-periodic', 'sq31p', dict(btype=bt, degree=2), True, 0)); C.append((f'{bt}1-2d', 'square', dict(btype=bt, degree=1), True, 0)); C.append((f'{bt}2-tri', 'tri', dict(btype=bt, degree=2), True, 0))
+    C.append(('std1-1elem-periodic', 'line1p', dict(btype='std', degree=1), True, 0)); C.append(('spline2-1x3-periodic', 'sq13p', dict(btype='spline', degree=2), True, 1)); C.append(('std1-2x2-biperiodic', 'sq22pp', dict(btype='std', degree=1), True, 0))
+    # partition bases: the parent basis made discontinuous at the interfaces between parts (part numberings in element order, reversed, interleaved, gapped)
+    for tag, parts in (('fwd', [0, 0, 1]), ('rev', [1, 1, 0]), ('mix', [1, 0, 1]), ('gap', [3, 0, 3])):
+        C.append((f'partition-std1-{tag}', 'line3', dict(btype='std', degree=1, _parts=parts), True, -1)); C.append((f'partition-spline2-{tag}', 'line3', dict(btype='spline', degree=2, _parts=parts), True, -1))
+    C.append(('partition-std1-2d-rev', 'square', dict(btype='std', degree=1, _parts=[1, 1, 0, 0]), True, -1)); C.append(('partition-std1-2d-mix', 'square', dict(btype='std', degree=1, _parts=[1, 0, 1, 0]), True, -1))
     C.append(('masked-std1', 'line3', dict(btype='std', degree=1, _mask=[True, False, True, True]), False, 0))
     if tier == 'thorough':
         C.append(('th-spline2-2d', 'hier', dict(btype='th-spline', degree=2), True, 1)); C.append(('std3-2d', 'square', dict(btype='std', degree=3), True, 0))
@@ -67,10 +83,31 @@ def configs(tier):
 def make_basis(cfg):
     name, tname, kw, pou, cont = cfg
     t, g = topo(tname)
-    kw = dict(kw); btype = kw.pop('btype'); mask = kw.pop('_mask', None)
+    kw = dict(kw); btype = kw.pop('btype'); mask = kw.pop('_mask', None); parts = kw.pop('_parts', None)
     b = t.basis(btype, **kw)
     if mask is not None: b = b[numpy.array(mask)]
+    if parts is not None: b = b.discontinuous_at_partition_interfaces(numpy.array(parts))
     return t, g, b
+
+def partition_facts(cfg):
+    '''auxiliary, concrete (finite facts of one configuration): the renumbering (part, parent dof) -> dof of a partition basis is a bijection that keeps the coefficients'''
+    name, tname, kw, pou, cont = cfg
+    parts = kw.get('_parts')
+    if parts is None: return []
+    t, g, b = make_basis(cfg)
+    kw2 = dict(kw); kw2.pop('_parts'); btype = kw2.pop('btype'); parent = t.basis(btype, **kw2)
+    bad, seen = [], {}
+    for e in range(len(t)):
+        dn, dp = list(b.get_dofs(e)), list(parent.get_dofs(e))
+        if len(dn) != len(dp) or not numpy.allclose(numpy.asarray(b.get_coefficients(e)), numpy.asarray(parent.get_coefficients(e))): bad.append(f'element {e}: dofs/coefficients do not match the parent basis'); continue
+        for jn, jp in zip(dn, dp):
+            key = (int(parts[e]), int(jp))
+            if seen.setdefault(int(jn), key) != key: bad.append(f'dof {jn} is shared by (part, parent dof) {seen[int(jn)]} and {key}')
+    inv = {}
+    for jn, key in seen.items():
+        if inv.setdefault(key, jn) != jn: bad.append(f'(part, parent dof) {key} is split over dofs {inv[key]} and {jn}')
+    if len(b) != len(seen): bad.append(f'{len(b)} dofs announced, {len(seen)} used')
+    return bad
 
 def lower_at(f, t, ielem, opposite=False):
     space, = t.spaces
@@ -95,6 +132,10 @@ def case(item):
         except Exception as ex:
             res['status'] = f'build:{type(ex).__name__}:{str(ex)[:60]}'; return res
         ndofs = len(basis)
+        try:
+            for b_ in partition_facts(cfg): res['viol'].append((f'{res["key"]}: partition basis: {b_}', dict(kind='partition', element=None)))
+        except Exception as ex:
+            res['viol'].append((f'{res["key"]}: partition basis facts raised {type(ex).__name__}: {ex}'[:300], dict(kind='partition', element=None)))
         elems = list(range(len(t))) if len(t) <= 6 else list(range(0, len(t), max(1, len(t) // 6)))
         for ielem in elems:
             try:
@@ -200,7 +241,8 @@ def main(argv=None):
         import json
         d = json.load(open(args.replay))['replay']
         cfg = configs('thorough')[d['cfg']] if d.get('cfg') is not None else None
-        if d['kind'] == 'eval': ok, detail = replay_eval(cfg, d['element'], d['point'])
+        if d['kind'] == 'partition': bad = partition_facts(cfg); ok, detail = bool(bad), str(bad)
+        elif d['kind'] == 'eval': ok, detail = replay_eval(cfg, d['element'], d['point'])
         elif d['kind'] == 'pou': ok, detail = replay_pou(cfg, d['element'], d['point'])
         elif d['kind'] == 'jump': ok, detail = replay_jump(cfg, d['label'], d['element'], d['point'])
         else:
